@@ -35,6 +35,126 @@ func checkStateAgainstSpec(res *racResult, w *racWorld, h racHistory, tag string
 	}
 }
 
+// runUndoHistory: the C06 contract on one history (see TestRAC_C06).
+func runUndoHistory(res *racResult, cfgs []mapCfg, h racHistory, n *int, checkRoots bool) {
+	depthAll := true
+	w := newWorld(cfgs)
+	var specs []*specForest
+	var bds []blockData
+	for k := range h {
+		specs = append(specs, w.spec.clone())
+		bd, err := w.prepare(h[k])
+		if err != nil {
+			return
+		}
+		bds = append(bds, bd)
+		if !w.applyAll(res, h, k, checkRoots) {
+			return
+		}
+	}
+	*n++
+	res.seen(h.String())
+	maxDepth := len(h)
+	if !depthAll {
+		maxDepth = len(h) // every depth 1..len: each undo step is compared with the spec
+	}
+	for d := 1; d <= maxDepth; d++ {
+		k := len(h) - d
+		bd := bds[k]
+		in := map[string]interface{}{"history": h.String(), "undo_depth": d}
+		sn := snap([][]Hash{bd.delHashes, bd.proof.Proof, bd.prevRoots}, [][]uint64{bd.proof.Targets})
+		var e error
+		p := safely(func() { e = w.pol.Undo(uint64(len(bd.adds)), bd.proof, bd.delHashes, bd.prevRoots) })
+		res.eval("Pollard.Undo.rac.accepts")
+		if p != "" || e != nil {
+			res.fail("Pollard.Undo.rac.accepts", in, fmt.Sprintf("panic=%q err=%v", p, e), "undone")
+			return
+		}
+		for i, m := range w.maps {
+			p := safely(func() { e = m.Undo(uint64(len(bd.adds)), bd.proof, bd.delHashes, bd.prevRoots) })
+			res.eval("MapPollard.Undo.rac.accepts")
+			if p != "" || e != nil {
+				res.fail("MapPollard.Undo.rac.accepts", map[string]interface{}{"history": h.String(), "undo_depth": d, "config": w.cfgs[i].String()}, fmt.Sprintf("panic=%q err=%v", p, e), "undone")
+				return
+			}
+		}
+		res.eval("C17.preserves.Undo")
+		if !sn.unchanged() {
+			res.fail("C17.preserves.Undo", in, "argument slices modified (proof / hashes / previous roots)", "unchanged")
+		}
+		w.spec = specs[k].clone()
+		w.stump = Stump{Roots: w.spec.Roots(), NumLeaves: w.spec.n}
+		checkStateAgainstSpec(res, w, h, fmt.Sprintf("after-undo-depth-%d", d))
+	}
+	// for every undo depth: a world rebuilt to "h applied, d blocks undone" must evolve under DIFFERENT blocks
+	// exactly as if the undone blocks had never been applied (full view, not only the roots)
+	for d := 1; d <= maxDepth; d++ {
+		for _, altKind := range []string{"add-only", "delete-first-and-last+add"} {
+			w2 := newWorld(cfgs)
+			okb := true
+			for k := range h {
+				okb = okb && w2.applyAll(res, h, k, false)
+			}
+			if !okb {
+				break
+			}
+			for u := 1; u <= d; u++ {
+				bd := bds[len(h)-u]
+				safely(func() { w2.pol.Undo(uint64(len(bd.adds)), bd.proof, bd.delHashes, bd.prevRoots) })
+				for _, m := range w2.maps {
+					safely(func() { m.Undo(uint64(len(bd.adds)), bd.proof, bd.delHashes, bd.prevRoots) })
+				}
+			}
+			k := len(h) - d
+			w2.spec = specs[k].clone()
+			w2.stump = Stump{Roots: w2.spec.Roots(), NumLeaves: w2.spec.n}
+			var slots []uint64
+			for s := range w2.spec.alive {
+				slots = append(slots, s)
+			}
+			slots = sortedU64(slots)
+			alt := racBlock{Adds: 2}
+			if altKind != "add-only" {
+				if len(slots) == 0 {
+					continue
+				}
+				alt.Dels = []uint64{slots[0]}
+				if len(slots) > 1 {
+					alt.Dels = append(alt.Dels, slots[len(slots)-1])
+				}
+				alt.Adds = 1
+			}
+			h2 := append(append(racHistory{}, h[:k]...), alt)
+			if w2.applyAll(res, h2, len(h2)-1, true) {
+				checkStateAgainstSpec(res, w2, h2, fmt.Sprintf("history %s, %d blocks undone, then %s", h.String(), d, altKind))
+			}
+		}
+	}
+	// redo the same blocks from the oldest state reached, then one different block
+	k0 := len(h) - maxDepth
+	for k := k0; k < len(h); k++ {
+		if !w.applyAll(res, h, k, true) {
+			return
+		}
+	}
+	checkStateAgainstSpec(res, w, h, "after-redo")
+	live := w.spec.liveHashes()
+	if len(live) > 0 {
+		// a different block: delete the first and last live leaf, add two
+		var slots []uint64
+		for s := range w.spec.alive {
+			slots = append(slots, s)
+		}
+		slots = sortedU64(slots)
+		alt := racBlock{Dels: []uint64{slots[0]}, Adds: 2}
+		if len(slots) > 1 {
+			alt.Dels = append(alt.Dels, slots[len(slots)-1])
+		}
+		h2 := append(append(racHistory{}, h...), alt)
+		w.applyAll(res, h2, len(h2)-1, true)
+	}
+}
+
 // C06 contract (bounded):  view(Undo(Modify(x, block))) == view(x), to any depth, then redo.
 func TestRAC_C06(t *testing.T) {
 	res := newRacResult("C06")
@@ -47,123 +167,8 @@ func TestRAC_C06(t *testing.T) {
 		maxLeaves, maxBlocks = 7, 4
 	}
 	n := 0
-	run := func(h racHistory, depthAll bool) {
-		w := newWorld(cfgs)
-		var specs []*specForest
-		var bds []blockData
-		for k := range h {
-			specs = append(specs, w.spec.clone())
-			bd, err := w.prepare(h[k])
-			if err != nil {
-				return
-			}
-			bds = append(bds, bd)
-			if !w.applyAll(res, h, k, false) {
-				return
-			}
-		}
-		n++
-		res.seen(h.String())
-		maxDepth := len(h)
-		if !depthAll {
-			maxDepth = len(h) // every depth 1..len: each undo step is compared with the spec
-		}
-		for d := 1; d <= maxDepth; d++ {
-			k := len(h) - d
-			bd := bds[k]
-			in := map[string]interface{}{"history": h.String(), "undo_depth": d}
-			sn := snap([][]Hash{bd.delHashes, bd.proof.Proof, bd.prevRoots}, [][]uint64{bd.proof.Targets})
-			var e error
-			p := safely(func() { e = w.pol.Undo(uint64(len(bd.adds)), bd.proof, bd.delHashes, bd.prevRoots) })
-			res.eval("Pollard.Undo.rac.accepts")
-			if p != "" || e != nil {
-				res.fail("Pollard.Undo.rac.accepts", in, fmt.Sprintf("panic=%q err=%v", p, e), "undone")
-				return
-			}
-			for i, m := range w.maps {
-				p := safely(func() { e = m.Undo(uint64(len(bd.adds)), bd.proof, bd.delHashes, bd.prevRoots) })
-				res.eval("MapPollard.Undo.rac.accepts")
-				if p != "" || e != nil {
-					res.fail("MapPollard.Undo.rac.accepts", map[string]interface{}{"history": h.String(), "undo_depth": d, "config": w.cfgs[i].String()}, fmt.Sprintf("panic=%q err=%v", p, e), "undone")
-					return
-				}
-			}
-			res.eval("C17.preserves.Undo")
-			if !sn.unchanged() {
-				res.fail("C17.preserves.Undo", in, "argument slices modified (proof / hashes / previous roots)", "unchanged")
-			}
-			w.spec = specs[k].clone()
-			w.stump = Stump{Roots: w.spec.Roots(), NumLeaves: w.spec.n}
-			checkStateAgainstSpec(res, w, h, fmt.Sprintf("after-undo-depth-%d", d))
-		}
-		// for every undo depth: a world rebuilt to "h applied, d blocks undone" must evolve under DIFFERENT blocks
-		// exactly as if the undone blocks had never been applied (full view, not only the roots)
-		for d := 1; d <= maxDepth; d++ {
-			for _, altKind := range []string{"add-only", "delete-first-and-last+add"} {
-				w2 := newWorld(cfgs)
-				okb := true
-				for k := range h {
-					okb = okb && w2.applyAll(res, h, k, false)
-				}
-				if !okb {
-					break
-				}
-				for u := 1; u <= d; u++ {
-					bd := bds[len(h)-u]
-					safely(func() { w2.pol.Undo(uint64(len(bd.adds)), bd.proof, bd.delHashes, bd.prevRoots) })
-					for _, m := range w2.maps {
-						safely(func() { m.Undo(uint64(len(bd.adds)), bd.proof, bd.delHashes, bd.prevRoots) })
-					}
-				}
-				k := len(h) - d
-				w2.spec = specs[k].clone()
-				w2.stump = Stump{Roots: w2.spec.Roots(), NumLeaves: w2.spec.n}
-				var slots []uint64
-				for s := range w2.spec.alive {
-					slots = append(slots, s)
-				}
-				slots = sortedU64(slots)
-				alt := racBlock{Adds: 2}
-				if altKind != "add-only" {
-					if len(slots) == 0 {
-						continue
-					}
-					alt.Dels = []uint64{slots[0]}
-					if len(slots) > 1 {
-						alt.Dels = append(alt.Dels, slots[len(slots)-1])
-					}
-					alt.Adds = 1
-				}
-				h2 := append(append(racHistory{}, h[:k]...), alt)
-				if w2.applyAll(res, h2, len(h2)-1, true) {
-					checkStateAgainstSpec(res, w2, h2, fmt.Sprintf("history %s, %d blocks undone, then %s", h.String(), d, altKind))
-				}
-			}
-		}
-		// redo the same blocks from the oldest state reached, then one different block
-		k0 := len(h) - maxDepth
-		for k := k0; k < len(h); k++ {
-			if !w.applyAll(res, h, k, true) {
-				return
-			}
-		}
-		checkStateAgainstSpec(res, w, h, "after-redo")
-		live := w.spec.liveHashes()
-		if len(live) > 0 {
-			// a different block: delete the first and last live leaf, add two
-			var slots []uint64
-			for s := range w.spec.alive {
-				slots = append(slots, s)
-			}
-			slots = sortedU64(slots)
-			alt := racBlock{Dels: []uint64{slots[0]}, Adds: 2}
-			if len(slots) > 1 {
-				alt.Dels = append(alt.Dels, slots[len(slots)-1])
-			}
-			h2 := append(append(racHistory{}, h...), alt)
-			w.applyAll(res, h2, len(h2)-1, true)
-		}
-	}
+	run := func(h racHistory, depthAll bool) { runUndoHistory(res, cfgs, h, &n, false) }
+
 	enumHistories(maxLeaves, maxBlocks, func(h racHistory) {
 		run(h, true)
 		if n%811 == 1 {
@@ -179,7 +184,14 @@ func TestRAC_C06(t *testing.T) {
 	for i := 0; i < nr; i++ {
 		run(randomHistory(rng, 3+rng.Intn(8), 9), true)
 	}
-	res.Rule = fmt.Sprintf("every history with <= %d leaves / <= %d blocks (+%d seeded random histories): apply, then undo every block newest-first; after each undo step the full view (roots, leaf count, GetLeafPosition for every hash class, GetHash at every position, Prove of every singleton and of the full set, verified by all verifiers) is compared with the spec forest of that earlier state; then the same blocks are re-applied and one different block is applied, with the C01 root check. Pollard and MapPollard %v. distinct = histories", maxLeaves, maxBlocks, nr, cfgs)
+	ne := 40
+	if res.thorough() {
+		ne = 600
+	}
+	for i := 0; i < ne; i++ {
+		run(emptyRootHistory(rng), true)
+	}
+	res.Rule = fmt.Sprintf("every history with <= %d leaves / <= %d blocks (+%d seeded random histories, +"+fmt.Sprint(ne)+" seeded histories of 2..40 leaves in which whole trees are emptied and then merged over): apply, then undo every block newest-first; after each undo step the full view (roots, leaf count, GetLeafPosition for every hash class, GetHash at every position, Prove of every singleton and of the full set, verified by all verifiers) is compared with the spec forest of that earlier state; then the same blocks are re-applied and one different block is applied, with the C01 root check. Pollard and MapPollard %v. distinct = histories", maxLeaves, maxBlocks, nr, cfgs)
 	res.Scope = fmt.Sprintf("histories=%d", n)
 	res.write(t)
 }
